@@ -85,6 +85,8 @@ def evaluate(case):
         alpha = dict(file_alphabet(B))
         if case.get("leak"):
             alpha = LEAK_FILES(B)
+        if case.get("fset") == "zt":
+            alpha = ZT_FILES(B)
         paths = sorted(case["files"])
         spec = [E(p, "file", content=alpha[p]) for p in paths]
         lines = case["lines"]
@@ -93,7 +95,7 @@ def evaluate(case):
 
         def viol(fp, what):
             fl = packcheck.artefact_files(wd, limit=200000)
-            fl["case.json"] = json.dumps(dict(files=[p.decode("latin1") for p in paths], lines=lines, cfg=case["cfg"], leak=bool(case.get("leak"))), default=list)
+            fl["case.json"] = json.dumps(dict(files=[p.decode("latin1") for p in paths], lines=lines, cfg=case["cfg"], leak=bool(case.get("leak")), fset=case.get("fset")), default=list)
             return dict(status="violation", fp=fp, what=label + "\n" + what, files=fl)
         if r.timeout or r.crashed or r.rc != 0:
             return viol("C17|pack-fails|" + (r.crash_fingerprint() if r.crashed else "rc"), "rc=%d %s" % (r.rc, r.err.decode("latin1")[-800:]))
@@ -115,6 +117,8 @@ def evaluate(case):
             size = f["size"]
             nfull, tail = divmod(size, B)
             want_frag = tail != 0 and "dont_fragment" not in fl and not (T and size > B)
+            if tail and not any(alpha[p][nfull * B:]) and "nosparse" not in fl:
+                want_frag = False  # an all-zero tail is a hole unless nosparse asks for it to be materialised
             if (f["frag"] is not None) != want_frag:
                 which = "dont_fragment" if "dont_fragment" in fl else ("-T" if T else "default")
                 return viol("C17|fragment-policy|%s" % which, "file %r (size %d, flags %s, -T=%s): fragment %s, expected %s" % (
@@ -242,6 +246,24 @@ def LEAK_FILES(B):
             b"g/x1": b"Y" * B + b"x1 " * 60, b"g/x2": b"Z" * B + b"x2 " * 60}
 
 
+def ZT_FILES(B):
+    # files whose last partial block is all zero (after real data), next to ordinary ones
+    return {b"z/a": content_pattern("za", B) + bytes(300), b"z/b": content_pattern("zb", 2 * B) + bytes(B - 1), b"z/c": b"C" * B + b"tail " * 20,
+            b"z/d": content_pattern("zd", B) + bytes(B) + bytes(7)}
+
+
+def zero_tail_cases(tier):
+    """each flag (and none) x with/without -T on files whose partial last block is all zero"""
+    B = B0
+    files = tuple(sorted(ZT_FILES(B)))
+    for cfg in (dict(comp="gzip", bs=B), dict(comp="gzip", bs=B, T=1), dict(comp="lz4", bs=B, T=1, e=1)):
+        yield dict(files=files, lines=None, cfg=cfg, fset="zt")
+        for fl in [[f] for f in FLAGS] + [["dont_fragment", "dont_compress"], ["dont_fragment", "nosparse"]]:
+            for p in files:
+                yield dict(files=files, lines=[(0, fl, "exact", p.decode("latin1"))], cfg=cfg, fset="zt")
+            yield dict(files=files, lines=[(1, fl, "glob", "z/*")], cfg=cfg, fset="zt")
+
+
 def leak_cases(tier):
     """two- and three-line sort files in which a line WITHOUT a flag list follows a line with one (per-line state must not carry over): flags, glob mode"""
     B = B0
@@ -270,7 +292,7 @@ def main():
                 case["lines"] = [tuple(l) for l in case["lines"]]
             print(evaluate(case))
             return 1
-        cl = list(cases(cr.tier)) + list(leak_cases(cr.tier))
+        cl = list(cases(cr.tier)) + list(leak_cases(cr.tier)) + list(zero_tail_cases(cr.tier))
         cr.coverage["planned_cases"] = len(cl)
         n_eval = 0
         seen = set()
